@@ -205,7 +205,7 @@ class Run:
                 by_solver[k] = by_solver.get(k, 0) + v
         bounded = []
         for spec in cfg.get("bounded", []):
-            envx = {k: (v[self.tier] if isinstance(v, dict) else v) for k, v in spec.get("env", {}).items()}
+            envx = {k: (v[self.tier] if isinstance(v, dict) else (v(self) if callable(v) else v)) for k, v in spec.get("env", {}).items()}
             r = self.run_bounded(spec, envx)
             r["name"] = spec["name"]
             r["scope"] = envx
@@ -422,7 +422,7 @@ class Run:
                     case = inp.split(" ", 1)[0] if isinstance(inp, str) else json.dumps(inp)
                     if cfg.get("prepare"):
                         cfg["prepare"](self)
-                    envx = {k: (v[self.tier] if isinstance(v, dict) else v) for k, v in spec.get("env", {}).items()}
+                    envx = {k: (v[self.tier] if isinstance(v, dict) else (v(self) if callable(v) else v)) for k, v in spec.get("env", {}).items()}
                     envx[spec["replay_env"]] = "replay:" + case
                     r = self.run_bounded(spec, envx)
                     if r["fails"]:
